@@ -235,6 +235,39 @@ def run_case(case, sets=None):
             out.append(("a second object built from the same pose list "
                         "could not be projected (%s)" % e,
                         {"kind": "shared-list"}, None))
+    # two objects that were given one and the same metadata dict are still
+    # two objects; and replacing / clearing the metadata of a projected
+    # object does not make it un-projected
+    if "only" not in case:
+        shared = {"frame_id": "map"}
+        tsx = [100.0 + 0.25 * k for k in range(4)]
+        tc = common.make_traj(Rs[:4], ps[:4], tsx, case["ctor"], meta=shared)
+        td = common.make_traj(Rs[:4], ps[:4], tsx, case["ctor"], meta=shared)
+        tc.project(Plane(plane))
+        try:
+            td.project(Plane(plane))
+            if any(M[nd, 3] != 0.0 for M in common.views(td)["poses"]):
+                out.append(("second object with the same metadata dict: not "
+                            "projected", {"kind": "shared-meta"}, None))
+        except TrajectoryException as e:
+            out.append(("the first projection of another object that was "
+                        "given the same metadata dict was refused (%s)" % e,
+                        {"kind": "shared-meta"}, None))
+        for how in ("replace", "clear"):
+            te = common.make_traj(Rs[:4], ps[:4], tsx, case["ctor"],
+                                  meta={"frame_id": "map"})
+            te.project(Plane(plane))
+            if how == "replace":
+                te.meta = {"frame_id": "odom"}
+            else:
+                te.meta.clear()
+            try:
+                te.project(Plane(plane))
+                out.append(("second projection was not refused after the "
+                            "object's metadata was %sd" % how,
+                            {"kind": "second-projection"}, None))
+            except TrajectoryException:
+                pass
     # second projection is refused and changes nothing
     snap = common.snapshot(t)
     for p2 in ("xy", "xz", "yz"):
@@ -294,8 +327,26 @@ def run_metric_case(case):
     from evo.core.trajectory import Plane
     from evo.core.units import Unit
     plane, nd = case["plane"], PLANES[case["plane"]]
-    Rs, ps, _ = hard_set(case.get("seed", 0))
-    Rs, ps = Rs[::9], ps[::9]
+    if case.get("euler"):
+        # a non-default package setting (it belongs to the roll/pitch/yaw
+        # plot, the projection must not follow it)
+        from evo.tools.settings import SETTINGS
+        old = SETTINGS.euler_angle_sequence
+        dict.__setitem__(SETTINGS, "euler_angle_sequence", case["euler"])
+        try:
+            return run_metric_case(dict(case, euler=None))
+        finally:
+            dict.__setitem__(SETTINGS, "euler_angle_sequence", old)
+    planar = case.get("poses") == "planar"
+    if planar:
+        # poses that already lie in the plane (headings within +-90 deg: the
+        # known finding K1 concerns the others in the xz plane)
+        Rs, ps, tags = planar_set(plane)
+        keep = [k for k, t in enumerate(tags) if abs(t[1]) <= 90.0][::7]
+        Rs, ps = [Rs[k] for k in keep], [ps[k] for k in keep]
+    else:
+        Rs, ps, _ = hard_set(case.get("seed", 0))
+        Rs, ps = Rs[::9], ps[::9]
     ref, _ = build(Rs, ps, case["ctor"], [])
     if case["est"] == "eq":
         est, _ = build(Rs, ps, case["ctor"], [])
@@ -315,6 +366,14 @@ def run_metric_case(case):
         if any(M[nd, 3] != 0.0 for M in v["poses"]):
             out.append("%s(project_to_plane=%s): stored trajectory %s is not "
                        "in the plane" % (case["tool"], plane, name))
+        if planar and name == "R":
+            for k, M in enumerate(v["poses"]):
+                if not common.close(M, geom.pose(Rs[k], ps[k]), 10):
+                    out.append("%s(project_to_plane=%s): a pose that already "
+                               "lies in the plane was changed (pose %d of "
+                               "the stored reference)" %
+                               (case["tool"], plane, k))
+                    break
     err = np.array(r.np_arrays.get("error_array", []))
     if case["est"] == "eq" and err.size and np.abs(err).max() > 1e-9:
         out.append("%s(project_to_plane=%s) of equal trajectories is not "
@@ -414,8 +473,11 @@ def run(ctx):
     acc = pmap_acc(ctx, __name__, "shard_cases", [[c] for c in cases])
     acc.merge(pmap_acc(ctx, __name__, "shard_metric", [[
         {"plane": plane, "ctor": ctor, "tool": tool, "est": est,
-         "seed": ctx.seed}] for plane in PLANES for ctor in ("se3", "quat")
-        for tool in ("ape", "rpe") for est in ("other", "eq")]))
+         "seed": ctx.seed, "poses": poses, "euler": euler}]
+        for plane in PLANES for ctor in ("se3", "quat")
+        for tool in ("ape", "rpe") for est in ("other", "eq")
+        for poses in ("hard", "planar")
+        for euler in (None, "szyx", "rzyx")]))
     acc.merge(pmap_acc(ctx, __name__, "shard_cli", [cli_cases()]))
     acc.counters["states"] = acc.counters["evaluations"]
     acc.rule = (
